@@ -68,7 +68,15 @@ Fixpoint match_anywhere (atoms : list ratom) (to_end : bool) (s : bytes) : bool 
   | _ :: t => match_anywhere atoms to_end t
   end.
 
+(* patterns regexp.Compile rejects (like() then answers false for every document): an unclosed or unopened
+   group or class, a repetition operator with nothing to repeat *)
+Definition pat_malformed (pat : bytes) : bool :=
+  (mem_byte 40 pat && negb (mem_byte 41 pat)) || (mem_byte 41 pat && negb (mem_byte 40 pat)) ||
+  (mem_byte 91 pat && negb (mem_byte 93 pat)) ||
+  match pat with 42%N :: _ | 43%N :: _ | 63%N :: _ => true | _ => false end.
+
 Definition like_match (pat s : bytes) : bool :=
+  if pat_malformed pat then false else
   let '(anch_start, p1) := match pat with 94%N :: t => (true, t) | _ => (false, pat) end in
   let '(anch_end, p2) :=
     match rev p1 with
